@@ -18,7 +18,7 @@ import catalog
 
 ROOT = os.path.dirname(os.path.dirname(os.path.abspath(__file__)))
 REPO = "/repo"
-NLANES = 10
+NLANES = 14
 REQUIRED_STUBS = [
     "alloc :: fmt :: format",
     "std :: env :: var_os",
@@ -550,9 +550,9 @@ def main(argv: list[str]) -> int:
 
     tier = opt("--tier", os.environ.get("VERIF_TIER", "quick")) or "quick"
     only = opt("--only")
-    jobs = int(opt("--jobs", os.environ.get("VERIF_JOBS", "7")))
+    jobs = int(opt("--jobs", os.environ.get("VERIF_JOBS", "12")))
     if cmd == "setup":
-        return setup(int(opt("--lanes", "7")))
+        return setup(int(opt("--lanes", "12")))
     if cmd == "list":
         for h in catalog.HARNESSES:
             if not args or args[0] in h["props"]:
